@@ -410,3 +410,25 @@ def json_option_order_independent(x2: bool, oi: int) -> bool:
         return False
     text = ev(T_OPT17_TEXT, d=r[0])[0] if x2 else r[0]
     return text == ('�x' if oi == 5 else '?x')
+
+
+_NONJSON = ('NaN', 'Infinity', '-Infinity', '[NaN]', '{"a":Infinity}', '[1,-Infinity]')
+T_NONJSON = {f: tuple(P31.parse("%s($t%s)" % (f, o)) for o in ('', ", map{'liberal': false()}", ", map{'liberal': true()}")) for f in ('parse-json', 'json-to-xml')}
+
+
+@ob(budget=120, bound='parse-json / json-to-xml of 6 texts that use NaN / Infinity (not JSON: RFC 7159) without options, with liberal false and with liberal true '
+                      '(function, text and option chosen by the solver): FOJS0001 unless liberal is true, where the outcome is a value or an ElementPathError',
+    funcs=['elementpath/xpath31/_xpath31_functions.py:evaluate__parse_json', 'elementpath/xpath31/_xpath31_functions.py:evaluate__json_to_xml'])
+def non_json_constants_rejected(x2: bool, ti: int, oi: int) -> bool:
+    """
+    pre: 0 <= ti <= 5 and 0 <= oi <= 2
+    post: _
+    """
+    from harness.common import err_code
+    t = _NONJSON[[k for k in range(6) if k == ti][0]]
+    oi = [k for k in range(3) if k == oi][0]
+    try:
+        ev(T_NONJSON['json-to-xml' if x2 else 'parse-json'][oi], t=t)
+    except ElementPathError as e:
+        return oi == 2 or err_code(e) == 'FOJS0001'
+    return oi == 2
